@@ -240,6 +240,8 @@ def run(ctx, report):
                          % ('reverses' if swapped else 'does not reverse', name, 'Intel' if name in SAME_ORDER else 'reversed'), where(arch, from_att.node))
 
 
+    far_order_rule(ctx, R8)
+
     # ---------------------------------------------------------------- D9 a memory operand rendered under a suffix-less AT&T mnemonic assembles back
     R9 = report.rule('C09.D9', 'memory forms whose AT&T mnemonic carries no size suffix: the size mnemo_from_att leaves on the operand passes the size check of the /digit row', floor=30)
     att_shapes = att_memory_operand_shapes(ctx)
@@ -388,6 +390,35 @@ def run(ctx, report):
     R11 = report.rule('C09.D11', 'rendering does not change the instruction: the Intel and the AT&T rendering of one decoded object describe the same instruction (shared with C12.D11)', floor=4)
     from .c12 import readonly_methods_rule
     readonly_methods_rule(ctx, R11)
+
+
+def far_order_rule(ctx, R8):
+    """shared with C02.D12"""
+    from ..archinterp import arch_interp
+    from ..lifter import LiftUnknown, LiftError
+    X, I = arch_interp(ctx)
+    arch, afs = X.arch, X.afs
+    from_att = I.g.get('mnemo_from_att')
+    if from_att is None:
+        raise AnalysisError('ia32_arch.mnemo_from_att not found')
+    # far jump / far call with two immediates: GNU as writes `ljmp $seg, $off`, i.e. the reverse of the Intel `jmpf off, seg` like every ordinary instruction;
+    # parse_args has already put the operands back in Intel order, so mnemo_from_att must leave them alone
+    for att_name in ('ljmp', 'lcall'):
+        o1, o2 = {afs.ad: False, afs.size: afs.u32, afs.imm: 0x5678}, {afs.ad: False, afs.size: afs.u32, afs.imm: 0x1234}
+        lst = [o1, o2]
+        try:
+            r_ = I.run(from_att, [[], att_name, lst, 'att_syntax'])
+        except LiftUnknown as e:
+            raise AnalysisError('mnemo_from_att outside the modelled subset on %s: %s' % (att_name, e))
+        inst = 'parse-order:%s' % att_name
+        if any(isinstance(res_, LiftError) for _, res_ in r_):
+            R8.violation(inst, 'att-order:parse:%s:rejected' % att_name, 'mnemo_from_att rejects `%s $seg, $off`' % att_name, where(arch, from_att.node))
+        elif [x_.get(afs.imm) for x_ in lst] == [0x5678, 0x1234]:
+            R8.ok(inst, sample='%s $seg, $off: offset first, segment second, as the EA / 9A rows take them' % att_name)
+        else:
+            R8.violation(inst, 'att-order:parse:%s' % att_name, 'mnemo_from_att exchanges the two immediates of `%s $0x1234, $0x5678`: segment and offset are assembled in each other\'s place'
+                         % att_name, where(arch, from_att.node), witness="asm_att('ljmp $0x1234, $0x5678') == ea 34 12 00 00 78 56")
+
 
 
 def att_memory_operand_shapes(ctx):
